@@ -158,8 +158,12 @@ func runBad(c *Ctx, prop string) {
 			}
 			c.Res.Count("skipped:class-not-applicable:unknown-field-by-schema-change")
 		}
+		if lay == layGoInterp && i%2 == 0 {
+			layoutEscapeOnly = f.Def // only the faulty definition's literal has the escaped prefix
+		}
 		files, where := layout(mut, lay, c.Rng("lay", i))
 		validFiles, _ := layout(defs, lay, c.Rng("lay", i))
+		layoutEscapeOnly = -1
 		cs := badCase{Seed: seed, Schema: p.Schema, Files: files, ValidTwin: validFiles, Fault: f, Layout: lay, Cfg: cfgFromGen(p.Config)}
 		cs.File = where[f.Def].File
 		cs.Line = where[f.Def].StartLine + f.Line - 1
